@@ -167,7 +167,7 @@ pub fn setup_io_uring(
                 ring_mask: cq_ring_mask,
                 ring_entries: cq_ring_entries,
                 entries: cq_cqes,
-                unreleased: 0,
+                handed_out: [0; 4],
             },
         })
     }
